@@ -56,6 +56,10 @@ def run(idx, rep, tier):
     # what a component assigns on this line is computed from this line: between lines every component is reset, whatever it answered before
     from . import c06 as _c06
     _c06.reset_table(idx, rep, "R8")
+    _c06.reset_clears(idx, rep, "R8")
+    # the values are compared at every line through print references: $.variables.name.key reads the key the csvpath wrote (C16.R6's table)
+    from . import c16 as _c16
+    _c16.r6(idx, K.as_rule(rep, "R7", keep=lambda k: "_ref_from_dict" in k))
     # group members count what a standalone path counts: CsvPaths.csvpath() hands its settings (skip_blank_lines, dialect) to every member
     from . import c08 as _c08
     _c08.r2(idx, K.as_rule(rep, "R6", keep=lambda k: "builds a new member" in k))
@@ -653,12 +657,15 @@ def r9(idx, rep):
     def setup_pair(it_, line):
         pair["v"] = line
 
-    ft2, program = _lines_program(idx, "Tally", "_produce_value", [("red", "S"), ("red", "L"), ("blue", "S"), ("red", "S")], setup_pair)
+    ft2, program = _lines_program(idx, "Tally", "_produce_value", [("red", "S"), ("red", "L"), ("blue", "S"), ("red", "S"), ("", "M"), ("red", "")], setup_pair)
     it.inline |= {"Tally._store"}
     ps = it.run_program(program, st)
     got = ps[0].final_store[VARS] if len(ps) == 1 else None
-    want = {"tally_color": {"red": 3, "blue": 1}, "tally_size": {"S": 3, "L": 1}, "tally": {"red|S": 2, "red|L": 1, "blue|S": 1}}
-    rep.check(got == want, "R9", f"{ft.file}::Tally two-argument sequence table", f"variables = {got}; documented {want}", K.where(ft, ft.node))
+    # (on a line where one of the headers is empty the others are still counted; an empty value itself is not a key of its header's count.
+    # The combined keys of such lines, '|M' and 'red|', are what the code does today — nothing documents them — and are not judged.)
+    want = {"tally_color": {"red": 4, "blue": 1}, "tally_size": {"S": 3, "L": 1, "M": 1}, "tally": {"red|S": 2, "red|L": 1, "blue|S": 1}}
+    gotj = None if got is None else {k: ({kk: vv for kk, vv in v.items() if kk not in ("|M", "red|")} if k == "tally" and isinstance(v, dict) else v) for k, v in got.items()}
+    rep.check(gotj == want, "R9", f"{ft.file}::Tally two-argument sequence table", f"variables = {got}; documented {want}", K.where(ft, ft.node))
     # ---- sum(#n): running sum
     it, st = _var_interp(idx, "Sum", children=[C("c0", value=None)], extra_handlers={"self.first_non_term_qualifier": lambda i, c, r, a, k: a[0] if a else None},
                          store={"self.name": "sum"})
